@@ -350,7 +350,25 @@ def in_phase_cases(draw):
         _pow2(-20, -4)))
     n_el = draw(st.integers(1, 40))
     freqs, kinds = [], []
-    if dtype == "int64":
+    if dtype == "int64" and draw(st.booleans()):
+        # integer-dtype frequencies with a float reference that is not an integer (seeded/C19-s2)
+        dtype = "int64/float-ref"
+        half = draw(st.sampled_from([5, -5, 3, 15, 25, -125, 7]))      # reference = half / 2
+        ref = half / 2
+        for _ in range(n_el):
+            kind = draw(st.sampled_from(["mult", "mult", "near", "generic", "zero"]))
+            n = draw(st.integers(-8, 8))
+            if kind == "mult":
+                v = (2 * n) * half // 2          # even multiples of ref are integers
+            elif kind == "near":
+                v = n * half + draw(st.integers(-2, 2))
+            elif kind == "generic":
+                v = draw(st.integers(-10 * abs(half), 10 * abs(half)))
+            else:
+                v = 0
+            freqs.append(int(v))
+            kinds.append(kind)
+    elif dtype == "int64":
         ref = draw(st.sampled_from([4, -4, 14, 60, -60, 1000, 3600, 1]))
         for _ in range(n_el):
             kind = draw(st.sampled_from(["mult", "mult", "div", "near", "generic", "zero"]))
@@ -744,11 +762,12 @@ def check_in_phase(case):
     from scippneutron.chopper.filtering import filter_in_phase
 
     dim, dtype = case["dim"], case["dtype"]
+    data_dtype = "int64" if dtype.startswith("int64") else dtype
     freqs = case["freqs"]
     n = len(freqs)
-    vals = np.array([int(v) for v in freqs], dtype=np.int64) if dtype == "int64" else np.array(freqs, dtype=np.float64)
+    vals = np.array([int(v) for v in freqs], dtype=np.int64) if data_dtype == "int64" else np.array(freqs, dtype=np.float64)
     unit = case["unit"]
-    da = sc.DataArray(sc.array(dims=[dim], values=vals, unit=unit, dtype=dtype),
+    da = sc.DataArray(sc.array(dims=[dim], values=vals, unit=unit, dtype=data_dtype),
                       coords={"idx": sc.arange(dim, n, unit=None)})
     if case["coord"] == "float":
         da.coords[dim] = sc.array(dims=[dim], values=np.arange(n) * 0.75 - 1.0, unit="s")
@@ -757,7 +776,8 @@ def check_in_phase(case):
     if case["mask_mod"]:
         da.masks["bad"] = sc.array(dims=[dim], values=mask_of(n, case["mask_mod"]))
     ref = case["ref"]
-    reference = sc.scalar(int(ref) if dtype == "int64" else float(ref), unit=unit, dtype=dtype)
+    ref_dtype = "float64" if dtype == "int64/float-ref" else dtype
+    reference = sc.scalar(int(ref) if dtype == "int64" else float(ref), unit=unit, dtype=ref_dtype)
     rtol = sc.scalar(float(case["rtol"]))
     verdict = [in_phase_oracle(vals[i], ref, case["rtol"]) for i in range(n)]
     with np.errstate(all="ignore"):
